@@ -57,6 +57,10 @@ pub(super) fn create_transport_costs(
             let (durations, distances) = if let Some(error_codes) = &matrix.error_codes {
                 let capacity = matrix.distances.len();
 
+                if error_codes.len() != capacity {
+                    return Err(GenericError::from("error codes and distances have different length"));
+                }
+
                 let mut durations: Vec<Duration> = Vec::with_capacity(capacity);
                 let mut distances: Vec<Distance> = Vec::with_capacity(capacity);
                 let err_fn = |i| move || GenericError::from(format!("invalid matrix index: {i}"));
